@@ -73,3 +73,8 @@ Definition pair_spec_ok (c : pyval * pyval * option string * option string) : bo
 (* one value, its digest alone and its digests in several contexts *)
 Definition ctx_spec_ok (c : option string * list (option string)) : bool :=
   let '(alone, others) := c in forallb (opt_str_eqb alone) others.
+
+(* C07: one computation observed in several sessions (hash seeds, insertion orders, pickling round trips):
+   every session must report the same identity *)
+Definition all_same (l : list (option string)) : bool :=
+  match l with [] => true | x :: r => forallb (opt_str_eqb x) r end.
